@@ -1047,13 +1047,25 @@ fn c17_oracle(spec: &ServerSpec, run: &ServerRun) -> Vec<Violation> {
                 }
             }
         }
-    } else if spec.injections.is_empty() {
-        // no faults at all: everything must complete correctly
+    } else if spec.injections.iter().all(|i| matches!(i.action, Action::DupSchedule { .. })) {
+        // no faults at all (a duplicate schedule is refused and changes nothing): everything must
+        // complete correctly
         let mut tmp = vec![];
         common_oracle(spec, run, &sv, &mut tmp, true);
         v.extend(tmp.into_iter().filter(|x| x.class == "stall"));
+        // whichever of a party's two schedule requests arrives second is the refused duplicate
+        let mut calls = run.calls.clone();
+        for i in 0..calls.len() {
+            if calls[i].what == "dup-schedule" && calls[i].ok == Some(true) {
+                if let Some(j) = (0..calls.len()).find(|j| calls[*j].what == "schedule" && calls[*j].party == calls[i].party && calls[*j].comp == calls[i].comp && calls[*j].ok == Some(false)) {
+                    calls[i].what = "schedule".into();
+                    calls[j].what = "dup-schedule".into();
+                }
+            }
+        }
+        let adjusted = ServerRun { calls, ..run.shallow_clone() };
         for ps in &spec.policies {
-            c13_oracle_comp(spec, run, ps, &sv, &mut v);
+            c13_oracle_comp(spec, &adjusted, ps, &sv, &mut v);
         }
     }
     v
@@ -1068,7 +1080,7 @@ fn c17_gen(seed: u64, k: u64) -> ServerSpec {
     let mut spec = base_spec(&mut rng, n, policies, concurrency, true);
     // (not together with a cancel: the shutdown of a node cancels its computations in the iteration
     // order of a std HashMap, which this simulator does not seed)
-    spec.http = k % 4 == 1 && k % 3 != 2;
+    spec.http = (k % 4 == 1 || k % 12 == 6) && k % 3 != 2;
     match k % 3 {
         1 => {
             // one failing RPC
@@ -1085,6 +1097,16 @@ fn c17_gen(seed: u64, k: u64) -> ServerSpec {
                 comp: ps.comp,
                 nth: 0,
                 verdict: if rng.random() { Verdict::FailBefore } else { Verdict::FailAfter },
+            });
+        }
+        0 if k % 2 == 0 => {
+            // a client that sends its schedule request twice (refused; must not cost anybody a permit)
+            let ps = &spec.policies[rng.random_range(0..spec.policies.len())];
+            spec.injections.push(Injection {
+                after_events: rng.random_range(1..30),
+                action: Action::DupSchedule { party: if rng.random_bool(0.7) { ps.leader } else { rng.random_range(0..n) }, comp: ps.comp },
+                burst: false,
+                burst_before: false,
             });
         }
         2 => {
@@ -1112,7 +1134,7 @@ impl Check for C17 {
         "exploration"
     }
     fn rule(&self) -> String {
-        "each evaluation is one simulated execution of a batch of 1..8 policies (n in {2,3}, mixed leaders, concurrency 1..3 per party, destinations present or absent, programs with and without constants) over one shared semaphore per party; a third of the runs inject one failing RPC (FailBefore = request lost, FailAfter = response lost) into a validate / run / consts call, a third inject a cancel at a random point. Monitor at every quiescence: permits held per party, and led computations between 'first run request sent' and 'state machine stopped', never exceed its concurrency; at the end every party has all permits back (a led policy may keep its permit only while it legitimately waits for a failed peer, never after the leader itself was asked to cancel it); for a failed RPC the affected policy ends at the caller (its machine stops; run / consts: an error notification if it has a destination); fault-free batches must satisfy the C13 oracle for every policy. distinct = (batch, fault, coordination order) hash".into()
+        "each evaluation is one simulated execution of a batch of 1..8 policies (n in {2,3}, mixed leaders, concurrency 1..3 per party, destinations present or absent, programs with and without constants) over one shared semaphore per party; a third of the runs inject one failing RPC (FailBefore = request lost, FailAfter = response lost) into a validate / run / consts call, a third inject a cancel at a random point, a sixth send one schedule request twice (refused; the batch must still complete correctly). Monitor at every quiescence: permits held per party, and led computations between 'first run request sent' and 'state machine stopped', never exceed its concurrency; at the end every party has all permits back (a led policy may keep its permit only while it legitimately waits for a failed peer, never after the leader itself was asked to cancel it); for a failed RPC the affected policy ends at the caller (its machine stops; run / consts: an error notification if it has a destination); fault-free batches must satisfy the C13 oracle for every policy. distinct = (batch, fault, coordination order) hash".into()
     }
     fn assumptions(&self) -> Vec<String> {
         vec!["followers of a policy whose leader failed may keep waiting (no RPC timeouts in the core); only the caller side is judged".into()]
